@@ -1,2 +1,3 @@
 import CattrsModel.Sexp
 import CattrsModel.Conv.Driver
+import CattrsModel.Props.C04
